@@ -7,7 +7,7 @@ HARNESS = "c08"
 DRIVER = "c08"
 PROPS_MODULE = "OxyModel.Props.C08"
 AUDIT = "OxyModel/Audit/C08.lean"
-THEOREMS = ["C08.C08_target_roundtrip", "C08.C08_target_roundtrip_absolute", "C08.C08_host", "C08.C08_hop_by_hop_removed", "C08.C08_end_to_end_preserved",
+THEOREMS = ["C08.C08_target_roundtrip", "C08.C08_target_roundtrip_absolute", "C08.C08_form_parsed_counterexample", "C08.C08_user_agent", "C08.C08_host", "C08.C08_hop_by_hop_removed", "C08.C08_end_to_end_preserved",
             "C08.C08_resp_hop_by_hop_removed_partial", "C08.C08_resp_standard_hop_removed", "C08.C08_resp_close_counterexample",
             "C08.C08_resp_end_to_end_preserved", "C08.C08_xfwd_survive", "C08.C08_xfwd_filled_iff_absent", "C08.C08_xff_appended"]
 RACE = False
@@ -18,11 +18,21 @@ RULE = ("scenario = one forward.New(pass) proxy behind a real net/http server â€
         "headers, forged peer address form, TLS flag, Host form, chosen backend) plus a scripted backend response; non-trivial = a request "
         "that reached a backend whose target has a pct-escape or a query and whose header set has a Connection header or an upstream-supplied forwarding header")
 ASSUMPTIONS = [
+    "ASSUMPTION ABOUT THE CALLER: nothing in front of the forwarder has parsed the request's form (req.Form == nil; hypothesis `formParsed = false` of "
+    "C08_target_roundtrip / _absolute). No oxy middleware does (a change that makes one do so is reported: seeded C08-r3-1). If the caller's own handler calls "
+    "ParseForm/FormValue first, httputil.ReverseProxy runs cleanQueryParams on the outgoing query: one containing ';' or a malformed %-escape is re-encoded "
+    "(such pairs dropped, keys sorted, values query-escaped) â€” documented stdlib behaviour, modelled (Fwd.formStep / FwdURL.cleanQueryParams), witnessed by "
+    "C08_form_parsed_counterexample and corpus/C08/form-parsed-upstream.ops. Monitor clause: for an op with form=1 (the scenario itself parsed the form) the backend "
+    "must receive path + that cleaning of the client's query; for every other op path and query must be byte-identical",
     "http.Transport writes URL.RequestURI(), Host and the header map as modelled by Fwd.Wire/wireHeader (DisableCompression: the harness transport does not add Accept-Encoding); Go's server-side request parsing; validated end-to-end by the diff, not verified",
     "headers the proxy emits itself for its own hop are not 'forwarded' hop-by-hop headers and are exempted exactly: to the backend `Te: trailers` iff the client's TE has the token trailers, `Connection: Upgrade` + `Upgrade: <client's first Upgrade value>` iff the client's Connection has the token upgrade and Upgrade is non-empty, Content-Length of the body sent; to the client Date, Content-Length/Transfer-Encoding framing and `Connection: close` of the proxy's own server",
     "X-Forwarded-Server is always this proxy's host name (properties.jsonl C08 mechanism 2: 'server name always set'), also when an upstream proxy supplied one",
     "'supplied by an upstream proxy' is read as the code reads it: Header.Get non-empty (first value not the empty string)",
-    "X-Real-Ip is the peer IP with an IPv6 zone stripped, X-Forwarded-For gets the peer IP as net.SplitHostPort returns it (zone kept); the monitor accepts either form in both places",
+    "IPv6 zones: X-Real-Ip must be the peer IP with the zone stripped (forward/rewrite.go ipv6fix, documented there; the monitor requires it); in X-Forwarded-For the stdlib appends the "
+    "peer IP as net.SplitHostPort returns it (zone kept) â€” the statement only says 'the peer address', so the monitor accepts the appended element with or without the zone while the model and "
+    "C08_xff_appended pin the zone-kept form (a change there shows as a correspondence divergence)",
+    "User-Agent is written by http.Transport itself (first value only, nothing when empty): proved separately as C08_user_agent; Content-Length and Host are the transport's framing of the request it sends and are excluded from the header theorems",
+    "targets the URL model does not cover are answered 'unmodelled' by the driver (never generated), not with a prediction",
     "request targets are ASCII; request bodies are Content-Length framed; response status is never 1xx; '*' and opaque targets, and absolute-form targets with userinfo or a bracketed IP literal as authority, are not modelled",
     "with an absolute-form target the Go server ignores the Host header and uses the target's authority as req.Host (RFC 7230 5.4); the monitor's 'client Host' is that effective host",
     "known finding resp_connection_close: net/http's Transport deletes a backend Connection header that contains 'close' before ReverseProxy reads it (C08_resp_hop_by_hop_removed_partial / C08_resp_close_counterexample)",
@@ -255,6 +265,46 @@ VALID_TARGET = re.compile(r"^(?:/" + PCHAR + r"*)+(?:\?(?:" + PCHAR + r"|[/?%])*
 VALID_ABS = re.compile(r"^[A-Za-z][A-Za-z0-9+.\-]*://([A-Za-z0-9.\-]*(?::[0-9]*)?)((?:/" + PCHAR + r"*)*)(\?(?:" + PCHAR + r"|[/?%])*)?$")
 
 
+def _q_unescape(s):
+    out, i = [], 0
+    while i < len(s):
+        c = s[i]
+        if c == "%":
+            if i + 2 >= len(s) + 0 and not (i + 2 < len(s)):
+                return None
+            h = s[i + 1:i + 3]
+            if len(h) < 2 or not re.match(r"^[0-9A-Fa-f]{2}$", h):
+                return None
+            out.append(chr(int(h, 16)))
+            i += 3
+        else:
+            out.append(" " if c == "+" else c)
+            i += 1
+    return "".join(out)
+
+
+def _q_escape(s):
+    return "".join(c if (c.isascii() and (c.isalnum() or c in "-_.~")) else "+" if c == " " else "%%%02X" % ord(c) for c in s)
+
+
+def stdlib_clean_query(q):
+    """net/http/httputil cleanQueryParams as documented: a query with a ';' or a malformed %-escape is re-encoded â€” pairs containing ';', empty pairs
+    and pairs that do not unescape are dropped, the rest is emitted sorted by key, query-escaped, in order of appearance per key"""
+    bad = ";" in q or re.search(r"%(?![0-9A-Fa-f]{2})", q) is not None
+    if not bad:
+        return q
+    m = {}
+    for pair in q.split("&"):
+        if ";" in pair or pair == "":
+            continue
+        k, _, v = pair.partition("=")
+        k, v = _q_unescape(k), _q_unescape(v)
+        if k is None or v is None:
+            continue
+        m.setdefault(k, []).append(v)
+    return "&".join(_q_escape(k) + "=" + _q_escape(v) for k in sorted(m, key=lambda x: x.encode("latin-1")) for v in m[k])
+
+
 def parse_op(line):
     f = line.split(" ")
     if f[0] != "req":
@@ -355,6 +405,11 @@ def monitor(ops, outs):
             continue
         H = hmap(d["h"])
         # -- request line, backend, host
+        if d.get("form") == "1" and "?" in want_target:
+            # the scenario's own upstream handler parsed the form: the stdlib cleans the outgoing query (see ASSUMPTIONS)
+            wp, _, wq = want_target.partition("?")
+            cq = stdlib_clean_query(wq)
+            want_target = wp + ("?" + cq if (cq != "" or wq == "") else "")
         if valid and unpe(sc.get("t", "")) != want_target:
             bad.append("target: line %d client sent %r, backend received %r" % (i, target, unpe(sc.get("t", ""))))
         if sc.get("p") != "HTTP/1.1":
@@ -414,7 +469,7 @@ def monitor(ops, outs):
 
         check("X-Forwarded-Proto", [["https" if tls else "http"]])
         if peer:
-            check("X-Real-Ip", [[peer[0]], [peer[0].split("%")[0]]])
+            check("X-Real-Ip", [[peer[0].split("%")[0]]])
         if host != "":
             check("X-Forwarded-Host", [[host]])
         eff = (bh.get("X-Forwarded-Proto") or [""])[0]
